@@ -4,7 +4,7 @@
 From Coq Require Import List NArith Bool Arith Sorted.
 From Coq Require Import Strings.Byte.
 Require Import BS.Bytes BS.Common BS.Api BS.Layout BS.Format BS.FormatFacts BS.Spec BS.SpecStep BS.Sections.
-Require Import BS.FS BS.FSFacts BS.Meta BS.MetaFacts BS.Header BS.Reader BS.ReaderFacts BS.Index BS.Data BS.DataFacts BS.Seek BS.SeekFacts BS.Series BS.SeriesFacts BS.ReadAllFacts.
+Require Import BS.FS BS.FSFacts BS.Meta BS.MetaFacts BS.Header BS.Reader BS.ReaderFacts BS.Index BS.Data BS.DataFacts BS.Seek BS.SeekFacts BS.Series BS.SeriesFacts BS.ReadAllFacts BS.CountFacts.
 Import ListNotations.
 
 (* (I) the reported count of a range is 0 / a range error exactly when nothing is selected; otherwise it is
@@ -21,5 +21,22 @@ Theorem C14_count : forall fs sr p hdr ihdr l, RepH fs sr p hdr ihdr l -> forall
   \/ (select lo hi l = [] /\ l = [] /\ n_lines_between sr lo hi fs = (fs, Ok 0%N)).
 Proof. exact n_lines_ok. Qed.
 Print Assumptions C14_count.
-(* partial: |secs_from (Some pf) 0 sel| <= Spec.sections_touched (the number of sections "at or inside the
-   range" as the judge counts them) is not proved; the judge checks that bound on the implementation. *)
+(* (I refines S) the property as stated: whenever the range selects a line, the reported count is at least the number of
+   lines a full read returns and exceeds it by at most K slots for every full-timestamp section at or inside the range -
+   Layer S's sections_touched (SpecStep.v), the very bound the judge applies to the implementation's answers *)
+Theorem C14_within_bound : forall fs sr p hdr ihdr l, RepH fs sr p hdr ihdr l -> forall lo hi k,
+  n_lines_between sr lo hi fs = (fs, Ok k) -> select lo hi l <> [] ->
+  (len (select lo hi l) <= k)%N
+  /\ (k <= len (select lo hi l) + N.of_nat (Layout.K p) * sections_touched p (encode p l) (select lo hi l))%N.
+Proof. exact n_lines_within_bound. Qed.
+Print Assumptions C14_within_bound.
+(* the counting argument behind it holds for ANY full timestamp the seek might settle on: a greedy sectioning of the
+   selected lines started from pf <= first line opens at most the sections the real encoding opens there, plus the
+   governing one when the first selected line continues a section *)
+Theorem C14_any_start : forall p x t pf g, StronglySorted N.lt (map fst (x :: t)) -> (pf <= fst x)%N ->
+  (match g with Some g' => (g' <= fst x)%N | None => True end) ->
+  cnt p (Some pf) (x :: t) <= cnt p g (x :: t) + (if opens g x then 0 else 1).
+Proof. exact cnt_bound. Qed.
+Print Assumptions C14_any_start.
+(* not proved: series with cache levels answer n_lines_between from the source alone (the model does so by definition);
+   damaged files (C18). *)
